@@ -2,6 +2,7 @@
 use crate::codec::{self, s};
 use crate::gen::Rng;
 use lambda_calculus::*;
+use lambda_calculus::reduction::Order;
 use std::collections::{BTreeMap, HashSet};
 use std::fs::File;
 use std::io::{BufWriter, Write};
